@@ -317,9 +317,9 @@ def g4():
         for s in node.body:
             if isinstance(s, ast.Assign) and isinstance(s.targets[0], ast.Name):
                 if s.targets[0].id == "data":
-                    # data = data.isel(**{dim: slice(0, -1)})
+                    # data = data.isel({dim: slice(0, -1)})   (the last entry along dim is dropped)
                     src = ast.unparse(s.value).replace(" ", "")
-                    if src != "data.isel(**{dim:slice(0,-1)})":
+                    if src not in ("data.isel({dim:slice(0,-1)})", "data.isel(**{dim:slice(0,-1)})"):
                         raise Shape(f"cumsum: unexpected trim {src}")
                     trim = True
                 elif s.targets[0].id == "ax_boundary_width":
